@@ -71,6 +71,8 @@ let upper_p (t : string list) : upper =
         else if String.length q > 4 && String.sub q 0 4 = "tcp:" then QTcp (zs (String.sub q 4 (String.length q - 4)))
         else QOther in
       UIcmp (IErr (zs ty, q', zs len))
+  | ["ns"; tg; ll; hl] -> UIcmp (INeighSol (z_of_hex tg, (if ll = "-" then None else Some (ll_p ll)), zs hl))
+  | ["na"; tg; ll; hl] -> UIcmp (INeighAdv (z_of_hex tg, (if ll = "-" then None else Some (ll_p ll)), zs hl))
   | ["igmp"] -> UIgmp
   | ["other"; p; len] -> UOther (zs p, zs len)
   | _ -> failwith "upper"
@@ -91,7 +93,7 @@ let hbh_p (s : string) : hbh option =
 let kind_s = function
   | KRst -> "rst" | KEchoReply -> "echorep" | KPortUnreach -> "unreach-port"
   | KProtoUnreach -> "unreach-proto" | KParamNxt -> "param-nxt" | KParamOpt -> "param-opt"
-  | KUdp -> "udp" | KSyn -> "syn" | KNeighSol -> "ns"
+  | KUdp -> "udp" | KSyn -> "syn" | KNeighSol -> "ns" | KNeighAdv -> "na"
 
 let print_emitted (l : emitted list) =
   List.iter (fun e ->
@@ -156,7 +158,7 @@ let () =
              Printf.printf "chg %s\n"
                (if ch = [] then "-"
                 else String.concat " " (List.map string_of_int (List.sort compare (List.map int_of_nat ch))));
-             show_out (ing_ingress_emits ifc res)
+             show_out (ing_ingress_emits_p ifc p res)
          | Err _ -> print_string "ERR\n"
          | Panic -> print_string "PANIC\n")
     | Some ["tx"; "udp"; si; dst; _dport; len] ->
